@@ -183,6 +183,9 @@ def run(chk: Check) -> None:
     from . import c12_threads
 
     c12_threads.run(chk)
+    from . import c12_tls
+
+    c12_tls.run(chk)
     chk.assumptions += [
         "FairLock is replayed with hand-driven coroutines and a stub backend whose events are resumed by the harness "
         "(FairLock only uses backend.create_event()); trio is not installed",
